@@ -898,7 +898,7 @@ func thoroughExtras(repo, prop string, seed int, extra map[string]any) int {
 // generated on a changed tree: internal obligations (loop invariants, per-site safety obligations, frame obligations
 // per touched field, closure preconditions, vacuity covers) legitimately come and go when code is restructured, and
 // their disappearance alone is not evidence against the property.
-var topLevelRe = regexp.MustCompile(`#(F\.ensures\[\d+\]|F\.onpanic\[|F\.yields2?\[|F\.assert|F\.cbinv\[|F\.panics-allowed|R\.functional|R\.noglobals|R\.noglobalstate|R\.ordered)`)
+var topLevelRe = regexp.MustCompile(`#(F\.ensures\[\d+\]|F\.onpanic\[|F\.yields2?\[|F\.assert|F\.cbinv\[|F\.panics-allowed|R\.functional|R\.noglobals|R\.noglobalstate|R\.ordered|R\.frame-scan)`)
 
 func isTopLevelClaim(name string) bool { return topLevelRe.MatchString(name) }
 
